@@ -25,6 +25,7 @@ RULE = ('every helper (callable class attribute, names compared as sets, signatu
         'normally in at least one runtime')
 ASSUMPTIONS = ['the generated runtime does not depend on the translated cells (helpers are class-level)',
                'TODAY is compared within one second (same clock)']
+HOST_SETTINGS = {'shards': lambda shards: [0], 'env': {'VERIF_HOST_DECIMAL': '3'}}
 FLOORS = {'quick': {'evaluations': 4000, 'nontrivial': 1500, 'counters': {'helpers_compared': 50}},
           'thorough': {'evaluations': 60000, 'nontrivial': 20000, 'counters': {'helpers_compared': 50}}}
 
